@@ -70,7 +70,7 @@ class _FuseBatchNormBase(RewriteRuleClassBase, ABC):
         )
 
         # Update bias
-        if len(inbound_node.inputs) > 2:
+        if len(inbound_node.inputs) > 2 and inbound_node.inputs[2] is not None:
             original_bias = inbound_node.inputs[2].const_value.numpy()
             bias_name = inbound_node.inputs[2].name
         else:
@@ -99,7 +99,7 @@ class _FuseBatchNormBase(RewriteRuleClassBase, ABC):
         # Check that inbound weights + (inbound bias) + batchnorm params are initializers
         # and that they are not graph inputs
         initializers = [inbound_node.inputs[1], *batchnorm_node.inputs[1:]]
-        if len(inbound_node.inputs) > 2:
+        if len(inbound_node.inputs) > 2 and inbound_node.inputs[2] is not None:
             initializers.append(inbound_node.inputs[2])
 
         for initializer in initializers:
@@ -115,7 +115,7 @@ class _FuseBatchNormBase(RewriteRuleClassBase, ABC):
         # original value with an invalid (unregistered) input.
         matched_nodes = {inbound_node, batchnorm_node}
         inbound_initializers = [inbound_node.inputs[1]]
-        if len(inbound_node.inputs) > 2:
+        if len(inbound_node.inputs) > 2 and inbound_node.inputs[2] is not None:
             inbound_initializers.append(inbound_node.inputs[2])
         for init_value in inbound_initializers:
             for user, _ in init_value.uses():
